@@ -108,10 +108,30 @@ Theorem C05_view_true : forall cfg t o ns v,
               (filter (fun p => s_arrival (snd p) <=? t - 1) act)
      else []) /\
   v_peak v = ns_peak ns /\
-  v_infra v = infra_of cfg /\
+  v_infra v = infra_at cfg t /\
   (forall p, In p act -> s_arrival (snd p) < s_departure (snd p) /\ s_arrival (snd p) < s_est (snd p)).
 Proof. exact view_true. Qed.
 Print Assumptions C05_view_true.
+
+(* `infra_at cfg t`: station ids, voltages, phases, pilot limits and allowable pilots of the network as
+   built, with the constraint matrix / limits / names in force at period t — the last in-place change
+   (update/add/remove_constraint) made in a period strictly before t, else those of the network as
+   built.  Without in-place changes it is the static description. *)
+Theorem C05_infra_static : forall cfg t, n_updates cfg = [] -> infra_at cfg t = infra_of cfg.
+Proof. exact infra_at_static. Qed.
+Print Assumptions C05_infra_static.
+
+Theorem C05_infra_before_first_change : forall cfg t,
+  (forall u c, In (u, c) (n_updates cfg) -> t <= u) ->
+  cons_at cfg t = (n_cmat cfg, n_limits cfg, n_cids cfg).
+Proof. exact cons_at_spec. Qed.
+Print Assumptions C05_infra_before_first_change.
+
+Theorem C05_infra_after_change : forall stations period cmat limits cids ups u c t,
+  cons_at (mkNet stations period cmat limits cids (ups ++ [(u, c)])) t =
+  if u <? t then c else cons_at (mkNet stations period cmat limits cids ups) t.
+Proof. intros. unfold cons_at. cbn [n_updates n_cmat n_limits n_cids]. rewrite fold_left_app. reflexivity. Qed.
+Print Assumptions C05_infra_after_change.
 
 Theorem C05_view_session_fields : forall t ns x,
   let s := mk_sinfo t ns x in
@@ -200,7 +220,7 @@ Print Assumptions C05_isolated_run.
         for one period.  Session 7: station 1, [0,6), 1 kWh; session 8: station 2, [2,4), 0.2 kWh. ---- *)
 Definition ex5_cfg : netcfg :=
   mkNet [mkStation 1 (Continuous (0 # 1) (32 # 1)) (208 # 1) (0 # 1);
-         mkStation 2 (Finite [0 # 1; 8 # 1; 16 # 1; 24 # 1; 32 # 1]) (240 # 1) (30 # 1)] (5 # 1) [] [] [].
+         mkStation 2 (Finite [0 # 1; 8 # 1; 16 # 1; 24 # 1; 32 # 1]) (240 # 1) (30 # 1)] (5 # 1) [] [] [] [].
 Definition ex5_events : list event :=
   [EPlugin 0 (mkSession 7 1 0 6 6 (1 # 1) (10 # 1) (0 # 1) (7 # 1));
    EPlugin 2 (mkSession 8 2 2 4 4 (1 # 5) (10 # 1) (0 # 1) (7 # 1))].
